@@ -174,7 +174,7 @@ theorem demoI_laws : Laws demoI (fun _ => True) where
     · funext i; cases b <;> simp [pw, maxRank, demoI]
   swish := by intro v; simp [demoI]
   swish' := by intro v; simp [demoI]
-  reshape_reshape := by intros; rfl
+  reshape_same2 := by intros; rfl
   reshape_numel := by intros; rfl
   reshape_same := by intros; rfl
   reshape_pw := by intros; rfl
@@ -213,5 +213,27 @@ example :
         (fun k => [0, 1, 0].getD k 0) = 7 ∧
     (pw (demoI.fn "Max" "") [xT, yT]).get (fun k => [0, 1, 0].getD k 0) = 5 := by
   decide
+
+/-- Two reshapes in a row are NOT collapsed into the outer one (with `allowzero = 0` a zero entry of
+    the outer target copies the extent of the *operand*, which the collapse would change): the pair
+    `Reshape(Reshape(x, s₁), s₂)` / `Reshape(x, s₂)` is rejected … -/
+example :
+    certify
+      (.cons (.app .reshape Ann.none (.cons (.app .reshape Ann.none
+        (.cons (.leaf 0 (annF32 [2, 3, 4]) false) (.cons (.leaf 1 Ann.none false) .nil)))
+          (.cons (.leaf 2 Ann.none false) .nil))) .nil)
+      (.cons (.app .reshape Ann.none
+        (.cons (.leaf 0 (annF32 [2, 3, 4]) false) (.cons (.leaf 2 Ann.none false) .nil))) .nil)
+      = false := by decide
+
+/-- … while a reshape chain whose (trusted) final annotation restores the static shape of the source
+    is certified equal to the source. -/
+example :
+    certify
+      (.cons (.app .reshape (annF32 [2, 3, 4]) (.cons (.app .reshape Ann.none
+        (.cons (.leaf 0 (annF32 [2, 3, 4]) false) (.cons (.leaf 1 Ann.none false) .nil)))
+          (.cons (.leaf 2 Ann.none false) .nil))) .nil)
+      (.cons (.leaf 0 (annF32 [2, 3, 4]) false) .nil)
+      = true := by decide
 
 end J2O.C02
